@@ -17,6 +17,7 @@ def tasks(tier):
                 T.append(('sx.mpinst', 'concrete_program', (m, t, np_, 'secgrp_ops', fam, 30, sd)))
                 if FAMILIES[fam] != 'sym4':
                     T.append(('sx.mpinst', 'concrete_program', (m, t, np_, 'secgrp_exp', fam, 30, sd)))
+                    if not np_ and FAMILIES[fam] == 'qr': T.append(('sx.mpinst', 'concrete_program', (m, t, np_, 'secgrp_expint', fam, 30, sd[:2])))
     # curve and class groups: every secure operation costs hundreds of resharings in pure Python; fewer configurations and seeds
     for m, t in ((1, 0), (3, 1)) if tier == 'quick' else ((1, 0), (2, 0), (3, 1), (5, 2)):
         for fam in heavy:
